@@ -200,7 +200,7 @@ inline constexpr void Conversion<Unit::Angle, Unit::Angle::Revolution>::ToStanda
 }
 
 template <typename NumericType>
-inline const std::map<Unit::Angle, std::function<void(NumericType* values, const std::size_t size)>>
+inline const ConversionTable<Unit::Angle, NumericType>
     MapOfConversionsFromStandard<Unit::Angle, NumericType>{
       {Unit::Angle::Radian,
        Conversions<Unit::Angle, Unit::Angle::Radian>::FromStandard<NumericType>    },
@@ -215,9 +215,8 @@ inline const std::map<Unit::Angle, std::function<void(NumericType* values, const
 };
 
 template <typename NumericType>
-inline const std::
-    map<Unit::Angle, std::function<void(NumericType* const values, const std::size_t size)>>
-        MapOfConversionsToStandard<Unit::Angle, NumericType>{
+inline const ConversionTable<Unit::Angle, NumericType>
+    MapOfConversionsToStandard<Unit::Angle, NumericType>{
           {Unit::Angle::Radian,
            Conversions<Unit::Angle, Unit::Angle::Radian>::ToStandard<NumericType>    },
           {Unit::Angle::Degree,
